@@ -594,7 +594,7 @@ func (r *run) gate() {
 		r.emit(c)
 		check := func(now int64, t []byte, mu *Mut) {
 			ss.TimeFunc = at(now)
-			gc := &Case{Stream: "authgate", Op: "gatecheck", Fam: "authgate", Key: k, Now: z(now), Tok: hx16(t),
+			gc := &Case{Stream: "authgate", Op: "gatecheck", Fam: "authgate", Key: k, Now: z(now), Tok: hx16(t), MaxTTL: z(s.maxttl),
 				Macs: macsForHex(k, t), Mut: mu}
 			var info *authgate.CredsInfo
 			var err error
@@ -602,10 +602,12 @@ func (r *run) gate() {
 			if err == nil && info != nil && info.Valid && info.User != "" {
 				gc.Obs.Ok = true
 				gc.Obs.Out = hx16([]byte(info.User))
+				gc.Obs.Refresh = info.NeedRefresh
 			}
 			r.emit(gc)
 		}
-		for _, now := range []int64{base, expires - 1, expires, expires + 1} {
+		fifth := s.maxttl / 5
+		for _, now := range []int64{base, expires - 1, expires, expires + 1, expires - fifth - 1, expires - fifth, expires - fifth + 1} {
 			check(now, tok, &Mut{Tok: tokid, Class: "genuine", Same: true})
 		}
 		up := []byte(strings.ToUpper(tk.Token))
